@@ -1,4 +1,6 @@
 """Property -> clauses -> rule instances.  Each check_Cxx fills a Report; it never prints."""
+import ast
+
 from .model import AnalysisError
 from .rules import twin, effect, work, feedback, models, misc, state, fresh, pda_rules, build, dispatch, io as iorules, closed, ka_rules, cyk, bound, order, visitor
 
@@ -36,6 +38,17 @@ def _twins(ctx, rep, names):
         if n not in pairs:
             raise AnalysisError('twin pair {} / {}_in_place vanished'.format(n, n))
         twin.check_twin(ctx, rep, *pairs[n])
+    # the pure twins rely on copy.deepcopy: a class that supplies its own __deepcopy__ / __copy__ must not share state
+    operand_classes = set()
+    for n in names:
+        for p0 in pairs[n][0].pos_params:
+            if p0.annotation is not None and isinstance(p0.annotation, (ast.Name, ast.Attribute)):
+                r0 = ctx.prog.resolve_expr(pairs[n][0], pairs[n][0].module, p0.annotation)
+                if r0 is not None and r0.kind == 'class':
+                    operand_classes.add(r0.target.qualname)
+    hooks = [f for f in ctx.prog.functions.values() if f.cls is not None and f.name in ('__deepcopy__', '__copy__') and f.cls.qualname in operand_classes]
+    if hooks:
+        effect.check_no_shared_result(ctx, rep, hooks)
 
 
 # -------------------------------------------------------------------------------------------------------
@@ -260,7 +273,8 @@ def check_C08(ctx, rep):
     nf = ctx.prog.func('cfg_algorithms.cfg_nullable_variables')
     if not (work.check_flag_fixpoint(ctx, rep, nf) + work.check_size_fixpoint(ctx, rep, nf)):
         raise AnalysisError('nullable fixpoint loop vanished')
-    if not work.check_snapshot_fixpoint(ctx, rep, ctx.prog.func('cfg_algorithms.cfg_derivable_variables')):
+    df = ctx.prog.func('cfg_algorithms.cfg_derivable_variables')
+    if not (work.check_snapshot_fixpoint(ctx, rep, df) or work.check_flag_fixpoint(ctx, rep, df) + work.check_size_fixpoint(ctx, rep, df)):
         raise AnalysisError('unit-closure fixpoint loop vanished')
     n = _fresh_in(ctx, rep, ['cfg_algorithms.cfg_add_new_start_variable_in_place', 'cfg_algorithms.cfg_make_rules_of_length_two_in_place',
                              'cfg_algorithms.cfg_eliminate_terminals_in_place'], providers=['cfg_algorithms.cfg_fresh_variable'])
@@ -385,6 +399,7 @@ def check_C13(ctx, rep):
     iorules.check_cfg_io(ctx, rep)
     build.check_parse_line(ctx, rep)
     build.check_builder_fields(ctx, rep)
+    build.check_value_validators(ctx, rep)
     iorules.check_line_delimiters(ctx, rep)
     misc.check_minimiser_siblings(ctx, rep, F(ctx, 'dfa_algorithms.dfa_minimize', 'dfa_algorithms.dfa_quotient', 'dfa_algorithms.dfa_hopfcroft'))
     rep.extra['templates'] = len(ctx.prog.templates)
@@ -408,6 +423,7 @@ def check_C16(ctx, rep):
     build.check_declared_vs_empty(ctx, rep)
     build.check_parse_line(ctx, rep)
     build.check_builder_fields(ctx, rep)
+    build.check_value_validators(ctx, rep)
     iorules.check_line_delimiters(ctx, rep)
     _effect_on(ctx, rep, ['dfa_algorithms.print_dfa', 'nfa_algorithms.print_nfa', 'pda_algorithms.print_pda', 'tm_algorithms.print_tm',
                           'cfg_algorithms.cfg_print_simple', 'regexp.print_regexp', 'regexp.print_regexp_simple'], shared=False)
@@ -423,6 +439,7 @@ def check_C17(ctx, rep):
     build.check_check_methods(ctx, rep)
     if build.check_builder_fields(ctx, rep) < 7:
         raise AnalysisError('fewer than 7 builder state-set arguments found')
+    build.check_value_validators(ctx, rep)
     if build.check_parse_line(ctx, rep) < 4:
         raise AnalysisError('fewer than 4 keyword stores found in parse_line')
     if build.check_invariants(ctx, rep) < 30:
@@ -524,7 +541,8 @@ def check_C19(ctx, rep):
                             'in-place / pure twin pairing (R-TWIN)',
                             'configuration read at call time, flag-guarded code only prints, no cross-call memo feeds a result (R-STATE)',
                             'acceptance tests and enumerators are PROVEN-INDEPENDENT of set iteration order, or the harmful cut-off pattern is reported; choice points of minimisers / eliminations / searches are enumerated (R-ORDER)',
-                            'no one-shot iterator is consumed in a loop it was created outside of (R-WORK W6)']
+                            'no one-shot iterator is consumed in a loop it was created outside of (R-WORK W6)',
+                            'flag- and size-controlled fixpoint loops of the library stop only after a round without change (R-WORK W5): an early stop makes the result depend on the iteration order']
     rep.not_decided += ['equality of languages across iteration orders where the representation legitimately depends on the order']
     fs = effect.pure_functions(ctx)
     effect.check_no_operand_mutation(ctx, rep, fs)
@@ -539,6 +557,11 @@ def check_C19(ctx, rep):
         raise AnalysisError('fewer than 5 logging/verbose-guarded sites found')
     state.check_hidden_state(ctx, rep)
     work.check_one_shot_iterators(ctx, rep, lib)
+    # a fixpoint loop that can stop early stops at a point that depends on the iteration order of the sets it walks
+    for f0 in lib:
+        if f0.parent is None and any(isinstance(x, ast.While) for x in ast.walk(f0.node)):
+            work.check_flag_fixpoint(ctx, rep, f0)
+            work.check_size_fixpoint(ctx, rep, f0)
     order.check_independence(ctx, rep, F(ctx, *(ACCEPTANCE + ENUMERATORS + ['regexp_algorithms.regexp_words_up_to_n', 'language_generator.compare_languages', 'language_generator.generate_language'])))
     order.check_independence(ctx, rep, F(ctx, *CHOICE_FUNCS), must=False)
     rep.extra['effect_rounds'] = ctx.effects.rounds
@@ -587,6 +610,29 @@ def _with_hidden_state(pid, fn):
         from .rules import inj
         scope = state.reachable_functions(ctx, _roots_of(ctx, rep))
         inj.check_scope(ctx, rep, scope)
+        # class invariants of the automaton classes that the operations of this property construct
+        if not any(i.rule == 'R-BUILD.inv' for i in rep.instances):
+            built = set()
+            for f0 in scope.values():
+                for g0 in [f0] + list(f0.nested.values()):
+                    for c0 in ctx.prog.calls_in(g0):
+                        r0 = ctx.resolve_call(g0, c0)
+                        if r0 is not None and r0.kind == 'class':
+                            spec = '{}.{}'.format(r0.target.module.base[:-3], r0.target.name)
+                            if spec in build.INVARIANTS:
+                                built.add(spec)
+            # ... and of the automata they take as operands (annotated parameters of the analysed functions)
+            for f0 in _roots_of(ctx, rep):
+                for p0 in f0.pos_params:
+                    if p0.annotation is not None:
+                        r0 = ctx.prog.resolve_expr(f0, f0.module, p0.annotation) if isinstance(p0.annotation, (ast.Name, ast.Attribute)) else None
+                        if r0 is not None and r0.kind == 'class':
+                            spec = '{}.{}'.format(r0.target.module.base[:-3], r0.target.name)
+                            if spec in build.INVARIANTS:
+                                built.add(spec)
+            if built:
+                build.check_invariants(ctx, rep, only=built)
+                rep.clauses_decided.append('the class invariants of the automata these operations construct ({}) are asserted in canonical form and checked by default on construction (R-BUILD.inv)'.format(', '.join(sorted(built))))
         from .rules import sorts
         sfuncs = []
         for f0 in scope.values():
